@@ -125,6 +125,14 @@ class Event(object):
         self.callbacks.append(cb)
 
     def unlisten(self, cb):
+        # the very object that was registered, if it is there: another
+        # listener may compare equal to it (callable objects with
+        # __eq__); else an equal one, because a bound method is a new
+        # (equal) object every time it is looked up
+        for i, registered in enumerate(self.callbacks):
+            if registered is cb:
+                del self.callbacks[i]
+                return
         self.callbacks.remove(cb)
 
     def got_update(self, data):
